@@ -763,6 +763,7 @@ func (st *Stack) compactRange(first, last int, expiration *LogExpirationConfig) 
 
 	if err := lockFile.Close(); err != nil {
 		os.Remove(destTable)
+		return false, err
 	}
 
 	if err := os.Rename(lockFileName, st.listFile); err != nil {
